@@ -134,10 +134,36 @@ ALIGN_TEXTS = ["go forward ten meters", "go forward", "go", "go backward two met
                "go  forward\tten\nmeters", "one two three"]
 
 
+# grammars written as FSG text whose words exist in the dictionary in another case, or are numbered pronunciation
+# variants the text names itself (both added at run time first): the reader must keep the spellings apart, and
+# results are reported under the base form
+VARIANT_WORDS = [("TEN", "T EH N"), ("GO", "G OW"), ("ten(2)", "T EH N"), ("meters(2)", "M IY T ER Z"), ("forward(2)", "F AO R W ER D")]
+FIXED_FSG_VARIANTS = [
+    "FSG_BEGIN v\nNUM_STATES 6\nSTART_STATE 0\nFINAL_STATE 5\nTRANSITION 0 5 0.5 ten\nTRANSITION 0 1 0.5 go\n"
+    "TRANSITION 1 2 1.0 forward\nTRANSITION 2 3 1.0 TEN\nTRANSITION 3 5 1.0 meters\nFSG_END\n",
+    "FSG_BEGIN v\nNUM_STATES 5\nSTART_STATE 0\nFINAL_STATE 4\nTRANSITION 0 1 1.0 GO\nTRANSITION 1 2 1.0 forward\n"
+    "TRANSITION 2 3 1.0 ten\nTRANSITION 3 4 1.0 meters\nTRANSITION 0 4 0.1 go\nFSG_END\n",
+    "FSG_BEGIN v\nNUM_STATES 5\nSTART_STATE 0\nFINAL_STATE 4\nTRANSITION 0 1 1.0 go\nTRANSITION 1 2 1.0 forward\n"
+    "TRANSITION 2 3 1.0 ten(2)\nTRANSITION 3 4 1.0 meters\nFSG_END\n",
+    "FSG_BEGIN v\nNUM_STATES 5\nSTART_STATE 0\nFINAL_STATE 4\nTRANSITION 0 1 1.0 go\nTRANSITION 1 2 1.0 forward(2)\n"
+    "TRANSITION 2 3 0.5 ten\nTRANSITION 2 3 0.5 ten(2)\nTRANSITION 3 4 1.0 meters(2)\nFSG_END\n",
+]
+VARIANT_ALIGN = ["go forward ten(2) meters", "GO forward TEN meters(2)"]
+
+
+def variant_prelude():
+    return ["addword %s %s 0" % (w.encode().hex(), p.encode().hex()) for w, p in VARIANT_WORDS]
+
+
 def pick_grammar(rng, ctx, idx, valid_only=False):
     """returns list of script lines that set a grammar"""
     r = rng.random()
     data = os.path.join(sut.REPO, "tests", "data")
+    if r < 0.05:
+        if rng.random() < 0.7:
+            txt = rng.choice(FIXED_FSG_VARIANTS)
+            return variant_prelude() + ["fsgtext " + hx(txt) + " " + hx(fsg_annotation(txt))], "fsg-variants"
+        return variant_prelude() + ["align " + hx(rng.choice(VARIANT_ALIGN))], "align-variants"
     if r < 0.30:
         return ["jsgf " + hx("#JSGF V1.0;\ngrammar g;\n" + rng.choice(FIXED_JSGF) + "\n")], "jsgf-fixed"
     if r < 0.55:
@@ -255,7 +281,7 @@ def make_case(rng, ctx, idx, want, opts=None):
             if "alignment" in want and rng.random() < 0.4:
                 s.append("alignment p%d" % np_)
             if "json" in want and rng.random() < 0.5:
-                s.append("json p%d %d %d" % (np_, rng.choice([0, 1500, 1234567, 100000123, 999999999]), rng.choice([0, 1, 2])))
+                s.append("json p%d %d %d" % (np_, rng.choice([0, 1500, 1234567, 100000123, 899999999]), rng.choice([0, 1, 2])))
     s.append("end")
     s.append("result fin")
     nb_first = "nbest" in want and rng.random() < 0.5     # the N-best list asked before anything fetched the final lattice
@@ -269,7 +295,7 @@ def make_case(rng, ctx, idx, want, opts=None):
         s.append("alignment fin")
     if "json" in want:
         for lvl in (0, 1, 2):
-            s.append("json fin %d %d" % (rng.choice([0, 1500, 1234567, 100000123, 999999999]), lvl))
+            s.append("json fin %d %d" % (rng.choice([0, 1500, 1234567, 100000123, 899999999]), lvl))
     s.append("free")
     eid = "%s-%s-%s-%s%s#%d" % (gkind, aud, beam, mode, ("-" + synth) if synth else "", idx)
     return eid, s
